@@ -343,6 +343,42 @@ def run(ctx):
             rep(f"plot_plaquettes raised {type(ex).__name__}: {ex}")
         finally:
             plt.close(fig)
+    # ---- label broadcasting (`_broadcast_args`) against the model, on the function itself: scalar / full-size / subset-size / wrong-size arguments x subsets
+    #      given as slice, mask, sorted / unsorted / permuted index lists, empty selections
+    bc_cases, bc_meta = [], []
+    for t in range(60 if quick else 600):
+        N = int(rng.integers(1, 9))
+        kind = int(rng.integers(6))
+        if kind == 0: subset = slice(None, None, None)
+        elif kind == 1: subset = slice(int(rng.integers(0, N)), None, int(rng.integers(1, 3)))
+        elif kind == 2: subset = rng.random(N) < 0.5
+        elif kind == 3: subset = np.sort(rng.choice(N, size=int(rng.integers(0, N + 1)), replace=False))
+        elif kind == 4: subset = rng.permutation(N)
+        else: subset = rng.permutation(N)[: int(rng.integers(0, N + 1))]
+        idx = np.arange(N)[subset]
+        form = int(rng.integers(4))
+        if form == 0: arg = int(rng.integers(-3, 9)); jarg = dict(x=arg)
+        elif form == 1: arg = rng.integers(-3, 9, size=N); jarg = dict(xs=arg.tolist())
+        elif form == 2: arg = rng.integers(-3, 9, size=len(idx)); jarg = dict(xs=arg.tolist())
+        else: arg = rng.integers(-3, 9, size=int(rng.integers(0, N + 3))); jarg = dict(xs=arg.tolist())
+        try:
+            got = [int(x) for x in pl._broadcast_args(arg if form == 0 else arg.copy(), subset, N, int)]
+        except ValueError:
+            got = None
+        except Exception as ex:
+            got = ("EXC", type(ex).__name__)
+        bc_cases.append(dict(N=N, subset=[int(i) for i in idx], **jarg)); bc_meta.append((N, subset, arg, got))
+    if hasattr(pl, "_broadcast_args"):
+        o = core.Driver().run([dict(op="broadcast", cases=bc_cases)])[0]
+        if "err" in o:
+            ctx.corr_break(f"broadcast model error {o['err']}", dict(case="broadcast"))
+        else:
+            for (N, subset, arg, got), want in zip(bc_meta, o["out"]):
+                if got != want:
+                    ctx.corr_break(f"_broadcast_args(N={N}, subset={np.asarray(subset).tolist() if not isinstance(subset, slice) else subset}, arg={np.asarray(arg).tolist()}) gives {got}, the model {want}",
+                                   dict(case="broadcast", N=N, arg=np.asarray(arg).tolist())); break
+            else:
+                ctx.count("broadcast_cases_compared_with_model", len(bc_cases))
     # ---- intersection helper on rational segments in general position
     G = 64
     n = 200 if quick else 3000
